@@ -9,7 +9,7 @@
     the real snapshot is tied by the correspondence check, which compares the tree it
     returns after every real set_sparse_patterns call. *)
 From Verif Require Import Base.Prelude Base.FsC Base.WcC Base.C24Chk Base.C25Chk Base.C27Chk Base.WcNames Model.C27.
-From Verif Require Import Proofs.FsC Proofs.WcCore Proofs.C24Step Proofs.C24Diff Proofs.C24Main Proofs.C25Main Proofs.C27Main.
+From Verif Require Import Proofs.FsC Proofs.WcCore Proofs.C24Step Proofs.C24Diff Proofs.C24Main Proofs.C25Main Proofs.C27Main Proofs.C27Refuted.
 Local Open Scope string_scope.
 Local Open Scope list_scope.
 
@@ -39,14 +39,7 @@ Section Statements.
       updates, because they hold for every diff list. The tree recorded in the working
       copy is never changed by [set_sparse]. *)
   Theorem C27_tree_unchanged : forall f w new, wc_tree (snd (set_sparse rn f w new)) = wc_tree w.
-  Proof.
-    intros f w new. unfold set_sparse.
-    destruct (o_res (run_update rn f (wc_states w) (diff_fs (matches_diff new (wc_sparse w)) [] (wc_tree w))));
-      try reflexivity.
-    destruct (o_res (run_update rn _ _ (diff_fs (matches_diff (wc_sparse w) new) (wc_tree w) [])));
-      try reflexivity.
-    match goal with |- context [if ?b then _ else _] => destruct b end; reflexivity.
-  Qed.
+  Proof. exact (set_sparse_tree_unchanged rn). Qed.
 
   (** A snapshot under sparse patterns keeps every tracked path outside the patterns, and
       on a disk that holds the tree inside the patterns it returns the identical tree: no
@@ -105,21 +98,10 @@ Proof. vm_compute. repeat split. Qed.
     skip a path, and then assert_eq!(removed_stats.skipped_files, 0) fails after the disk
     has been partly updated. Witness: tree {x/f, y}, patterns [x], the directory [x]
     replaced by a file behind jj's back, new patterns [y]. *)
-Definition C27_asserts_full : Prop :=
-  forall f w new, wf_fs f -> WcCore.anchor reserved_names f ->
-    o_res (fst (set_sparse reserved_names f w new)) <> RPanic.
+Definition C27_asserts_full : Prop := asserts_full.
 
-Definition refut_f : fs := [(pth ".jj", EDir); (pth ".jj/repo", EDir); (pth "x", EFile "o" false)].
-Definition refut_w : wc :=
-  mkWc [(pth "x/f", TFile "1" false); (pth "y", TFile "2" false)] [(pth "x/f", false)] [pth "x"].
-
-Lemma C27_asserts_refuted : ~ C27_asserts_full.
-Proof.
-  intros H. apply (H refut_f refut_w [pth "y"]).
-  - apply wf_fs_b_sound. vm_compute. reflexivity.
-  - apply anchor_b_sound. vm_compute. reflexivity.
-  - vm_compute. reflexivity.
-Qed.
+Theorem C27_asserts_refuted : ~ C27_asserts_full.
+Proof. exact asserts_refuted. Qed.
 
 Print Assumptions C27_exact_delta.
 Print Assumptions C27_tree_unchanged.
